@@ -23,13 +23,13 @@ type Loaded struct {
 
 // Load type-checks pattern in repoDir with the overlay files injected and
 // builds SSA for the whole program.
-func Load(repoDir, pattern string, overlay map[string][]byte, tags []string) (*Loaded, error) {
+func Load(repoDir, pattern string, overlay map[string][]byte, tags []string, extraFlags ...string) (*Loaded, error) {
 	t0 := time.Now()
 	cfg := &packages.Config{
 		Mode:       packages.LoadAllSyntax,
 		Dir:        repoDir,
 		Overlay:    overlay,
-		BuildFlags: []string{"-tags=" + strings.Join(tags, ","), "-mod=mod"},
+		BuildFlags: append([]string{"-tags=" + strings.Join(tags, ","), "-mod=mod"}, extraFlags...),
 		Env:        append(os.Environ(), "GOFLAGS=-mod=mod", "GOPROXY=off", "GOSUMDB=off", "GOTOOLCHAIN=local"),
 	}
 	pkgs, err := packages.Load(cfg, pattern)
